@@ -353,6 +353,11 @@ func GenRandomText(t *rapid.T, maxPieces int, allowCR bool) string {
 	if allowCR {
 		pieces = append(append([]string{}, textPieces...), "\r\n", "\r")
 	}
+	if rapid.IntRange(0, 5).Draw(t, "nonascii") == 0 {
+		// vore matches bytes: multi-byte UTF-8 sequences and bytes that are not
+		// UTF-8 at all are just more bytes (classes are ASCII, `any` is one byte)
+		pieces = append(append([]string{}, pieces...), "\u00e9", "\u65e5", "\u00c9", "\xff", "\u00e9a")
+	}
 	parts := rapid.SliceOfN(rapid.SampledFrom(pieces), 0, maxPieces).Draw(t, "text")
 	return strings.Join(parts, "")
 }
